@@ -58,10 +58,14 @@ def run_spec(draw, kinds=("flat", "flat", "nested", "nested", "fi")):
         node = {"name": "root", "kind": "Strategy", "algos": [spy, gate, ["WeighSpecified", {"weights": w}], ["Rebalance", {}]]}
         if draw(st.integers(0, 2)) == 0:
             # a market-value book of coupon-paying securities: the carry of the previous date arrives in cash at the opening of each date
-            node["children"] = [{"sec": t, "kind": "CouponPayingSecurity"} for t in tickers]
+            node["children"] = [{"sec": t, "kind": draw(st.sampled_from(["CouponPayingSecurity", "CouponPayingSecurity", "CouponPayingHedgeSecurity"]))} for t in tickers]
             spec["frames"]["coupons"] = {"kind": "frame", "cols": {t: [draw(st.sampled_from([0.0, 0.5, 2.0, 5.0, -1.0])) * gen.min_price({t: pr[t]}) / 50.0 for _ in range(n)] for t in tickers}}
             spec["additional"] = ["coupons"]
             spec["carry"] = True
+        elif draw(st.integers(0, 2)) == 0:
+            # hedge securities (zero notional by definition) in a market-value book are positions like any other
+            node["children"] = [{"sec": t, "kind": draw(st.sampled_from(["Security", "HedgeSecurity"]))} for t in tickers]
+            spec["hedge_secs"] = True
         if draw(st.integers(0, 2)) == 0:
             # a stack that trades in two steps: a bankruptcy declared during the first one must stop the second from re-opening anything
             ks2 = draw(st.lists(st.sampled_from(tickers), min_size=1, max_size=nt, unique=True))
@@ -76,7 +80,10 @@ def run_spec(draw, kinds=("flat", "flat", "nested", "nested", "fi")):
             w = draw(lev_weights(ks, gross=draw(st.sampled_from([1.0, 2.0, 3.0]))))
             cg = draw(st.sampled_from([["RunDaily", {}], ["RunWeekly", {}], ["RunMonthly", {}]]))
             names.append("s%d" % (i + 1))
-            subs.append({"name": names[-1], "kind": "Strategy", "algos": [cg, ["WeighSpecified", {"weights": w}], ["Rebalance", {}]], "children": ks})
+            hk = draw(st.sampled_from([["Security"], ["Security"], ["Security", "HedgeSecurity"], ["HedgeSecurity"]]))
+            subs.append({"name": names[-1], "kind": "Strategy", "algos": [cg, ["WeighSpecified", {"weights": w}], ["Rebalance", {}]], "children": [t if k_ == "Security" else {"sec": t, "kind": k_} for t in ks for k_ in [draw(st.sampled_from(hk))]]})
+            if "HedgeSecurity" in hk:
+                spec["hedge_secs"] = True
         own = draw(st.lists(st.sampled_from(tickers), min_size=0, max_size=nt, unique=True))
         pw = draw(lev_weights(names + own, gross=draw(st.sampled_from([1.0, 1.5, 2.5, 4.0]))))
         for nm in names:
@@ -112,7 +119,7 @@ def case_run(ctx, spec):
 
     interp.Probe.registry["c16spy"] = cb
     try:
-        b = interp.mk_backtest(bt, {k: v for k, v in spec.items() if k not in ("kind", "carry", "two_step", "ruinous_fee")})
+        b = interp.mk_backtest(bt, {k: v for k, v in spec.items() if k not in ("kind", "carry", "two_step", "ruinous_fee", "hedge_secs")})
         holder["root"] = b.strategy
         try:
             b.run()
@@ -151,7 +158,7 @@ def case_run(ctx, spec):
             if isinstance(sec, bt.core.CouponPayingSecurity):
                 m_ += float(np.asarray(sec.coupons, dtype=float)[t - 1]) - float(np.asarray(sec.holding_costs, dtype=float)[t - 1])
         M[t] = m_
-    labs = [spec["kind"]] + (["nested"] if spec["kind"] == "nested" else []) + (["carry"] if spec.get("carry") else []) + (["two_step"] if spec.get("two_step") else []) + (["ruinous_fee"] if spec.get("ruinous_fee") else [])
+    labs = [spec["kind"]] + (["nested"] if spec["kind"] == "nested" else []) + (["carry"] if spec.get("carry") else []) + (["two_step"] if spec.get("two_step") else []) + (["ruinous_fee"] if spec.get("ruinous_fee") else []) + (["hedge_secs"] if spec.get("hedge_secs") else [])
     for m in strats:
         if m is not s and m.bankrupt:
             raise Violation("sub-strategy %s was flagged bankrupt" % m.full_name, signature="c16:sub-flagged")
